@@ -114,6 +114,14 @@ def check_case(ctx, case, tmpdir, is_async=False):
         got += list(s)
         ctx.ev()
         ctx.count("buffer_switch_histories")
+        rest = nonempty[n * k:]
+        exp = (["".join(nonempty[i * n:(i + 1) * n]) for i in range(k)]
+               + (["".join(rest[i:i + m]) for i in range(0, len(rest), m)] if m else None or []))
+        if m and got != exp:
+            viol("buffering:size-rule-after-switch",
+                 f"enable_buffering({n}), {k} chunk(s) read, then enable_buffering({m}): chunks {got!r}, "
+                 f"expected the rest in groups of {m}: {exp!r}")
+            break
         if "".join(got) != text:
             viol("buffering:switch-mid-stream",
                  f"enable_buffering({n}), {k} chunk(s) read, then "
